@@ -370,12 +370,12 @@ def oracle(c, d, steps):
     evinfo = []
     for (typ, xs) in c["events"]:
         if t is None:
-            t = c["it0"]
+            t = c.get("t_start", c["it0"])       # t_start: the history is the continuation of an earlier one (first_step stays it0)
         elif typ == "S":
             t += 1
         evinfo.append((typ, t, xs))
     W = Fr(0)
-    work_amb = False
+    work_amb = bool(c.get("no_accumulators"))
     seen = set()
     ti_acc = {}     # stage -> (sum, count)
     nst = d["nstages"]
@@ -420,7 +420,7 @@ def oracle(c, d, steps):
                 bad.append(("work:%s" % ("centers" if m == "cc" else "k"), "step %d: accumulated work %r, sum of force x increment over the steps so far %r" % (t, o["W"], float(W))))
         # ---- staged TI: one line per stage, written by the new step that ends it, = mean of dU/dlambda over the
         #      stage's sampled steps (steps s in (first+gN, first+(g+1)N] with equil = 0 or (s-first) mod N >= equil)
-        if m in ("ks", "kl"):
+        if m in ("ks", "kl") and not c.get("no_accumulators"):
             eq = c["equil"]
             if new and t > first:
                 g = (t - first - 1) // N
@@ -1808,6 +1808,80 @@ def session_part(run, r, runner, n):
         run.count("session%d" % k, True)
 
 
+def reconfig_part(run, r, runner, n):
+    """a job restarted from a state with a configuration that legally differs in a parameter the state does not carry: the
+    force constant of a restraint whose centres move, the centres of a restraint whose force constant changes, the width of
+    a variable.  From the restart on the new parameter is in effect, the schedule (first step, stage, moving parameter)
+    continues from the state."""
+    cases = []
+    tries = 0
+    while len(cases) < n and tries < 60 * n:
+        tries += 1
+        c = gen_case(r, len(cases))
+        if c["kind"] != "harmonic" or c["mode"] == "none" or c.get("scale") or any(v["per"] for v in c["vars"]):
+            continue
+        c["events"] = [e for e in c["events"] if e[0] == "S"]
+        if len(c["events"]) < 4:
+            continue
+        c["jr"] = r.randrange(1, len(c["events"]) - 1)
+        what = r.choice(["width"] + (["k"] if c["mode"] in ("cc", "cs") else ["centers"]))
+        c["what"] = what
+        c["accw"] = False
+        cases.append(c)
+    scn = []
+    for k, c in enumerate(cases):
+        c2 = json.loads(json.dumps(c))
+        if c["what"] == "k":
+            c2["k"] = c["k"] * 2.0
+        elif c["what"] == "centers":
+            c2["centers"] = [x + 0.5 for x in c["centers"]]
+        else:
+            c2["vars"][0]["w"] = c["vars"][0]["w"] * 2.0
+        c["c2"] = c2
+        conf1 = ["config EOF"] + config_text(c) + ["EOF"]
+        conf2 = ["config EOF"] + config_text(c2) + ["EOF"]
+        L = ["echo CASE %d" % k, "natoms %d" % len(c["vars"]), "new"]
+        if c["it0"]:
+            L.append("setstep %d" % c["it0"])
+        L += ["capture"] + conf1 + ["show atomf 0 cv 0 energy 0 bias 0"]
+        for j, (typ, xs) in enumerate(c["events"]):
+            for i, x in enumerate(xs):
+                L.append("pos %d 0 0 %s" % (i + 1, hx(x)))
+            L += ["step", "rdump"]
+            if j == c["jr"]:
+                f = os.path.join(runner.scratch, "rc%d.state" % k)
+                ld = "load" if not c.get("mem") else ("loadbuf" if c["fmt"] == "binary" else "loadstr")
+                L += ["save %s %s" % (c["fmt"], f), "fresh", "capture"] + conf2 + ["%s %s" % (ld, f), "step", "rdump"]
+        L.append("echo END %d" % k)
+        scn += L
+    rc2, iout, e2 = V.run_lines(runner.unit, scn, cwd=runner.scratch, timeout=900)
+    impl = parse_impl(iout)
+    for k, c in enumerate(cases):
+        cs = impl.get(k)
+        run.dist("restart-with-changed-%s:%s" % (c["what"], c["mode"]))
+        rp = {"kind": "reconfig", "case": {kk: vv for kk, vv in c.items() if kk != "c2"}, "changed": c["what"]}
+        if cs is None or not cs["complete"] or len(cs["steps"]) != len(c["events"]) + 1 or any("err=ok" not in l for l in cs["config"]):
+            run.mismatch("reconfig", rp["case"], ((cs or {}).get("config", []) + (cs or {}).get("raw", []))[-3:], "complete run")
+            continue
+        jr = c["jr"]
+        dA = post_init(c, runner.wallsinit)
+        cA = dict(c, events=c["events"][:jr + 1], no_accumulators=True)
+        c2 = c["c2"]
+        dB = post_init(c2, runner.wallsinit)
+        if c["what"] == "k" and c["mode"] in ("cc", "cs"):
+            pass                                   # the fixed force constant comes from the new configuration
+        cB = dict(c2, events=[("S", c["events"][jr][1])] + c["events"][jr + 1:], t_start=c["it0"] + jr, no_accumulators=True)
+        if c["what"] == "centers":
+            pass                                   # fixed centres come from the new configuration; the moving k from the state
+        for sig, text in oracle(cA, dA, cs["steps"][:jr + 1]):
+            run.violation(sig, text, rp)
+        for sig, text in oracle(cB, dB, cs["steps"][jr + 1:]):
+            run.violation(sig + ":restart-with-changed-" + c["what"], text + " (job restarted at step %d with %s changed: %r -> %r)" % (
+                c["it0"] + jr, c["what"], {"k": c["k"], "centers": c["centers"], "width": c["vars"][0]["w"]}[c["what"]],
+                {"k": c2["k"], "centers": c2["centers"], "width": c2["vars"][0]["w"]}[c["what"]]), rp)
+        run.count("reconfig%d" % k, True)
+
+
 def tsf_part(run, runner):
     """timeStepFactor f > 1: the bias is updated every f steps.  Continuous schedules are evaluated at the updated steps
     (and are stale in between, by design); staged schedules test exact step numbers and miss them (recorded finding)."""
@@ -2063,6 +2137,7 @@ def check(run):
     ediff_moving_part(run, r, runner, 40 if quick else 1000)
     traj_part(run, r, runner, 30 if quick else 600)
     badconfig_part(run, runner)
+    reconfig_part(run, r, runner, 30 if quick else 800)
     session_part(run, r, runner, 30 if quick else 800)
     extl_part(run, r, runner, 30 if quick else 800)
     tsf_part(run, runner)
